@@ -34,7 +34,7 @@ TEXT = {
  "C06": "Static decision of the exclusion clause only: text can reach a cue only under PID / stream-id / data-unit-id / framing / Hamming / magazine / receiving / row-range / start-box / parity guards; table well-formedness and the colour-code table. Page scheduling, timing and termination behaviour are not decided.",
  "C16": "Static decision of the agreement clauses: per format writer separator ∈ reader separators, millisecond scale 3, 2 or 3 written digits, each codec uses its own wrappers, STL formatter and parser share the frame-rate field. Truncation, canonical fields, monotonicity and the 30 fps frame loss are value-level and not decided.",
  "C07": "Static decision of the structural clauses of any-to-any conversion: dispatch tables of Open/Write agree, are case-insensitive and default to the invalid-extension error; writers refuse an empty list before writing; the CLI table equals the documented one; writers tolerate every optional part other readers leave unset (no unguarded dereference in the writers' closure). Cue preservation across format pairs is not decided.",
- "C08": "Static all-paths decision, over the closure of the six readers, Open, the five writers and the exported helpers, that none of the panic classes Go code can raise itself (nil dereference, nil-map store, index/slice out of range, integer division by zero, failing single-result type assertion, explicit panic/Fatal) is reachable, modulo 22 audited residue sites each with a written reason (some backed by supporting rules), and that every loop has a progress argument. Panics inside dependencies, memory exhaustion and the linear-time bound are not decided.",
+ "C08": "Static all-paths decision, over the closure of the six readers, Open, the five writers and the exported helpers, that none of the panic classes Go code can raise itself (nil dereference, nil-map store, index/slice out of range, integer division by zero, failing single-result type assertion, explicit panic/Fatal) is reachable, modulo 13 audited residue sites each with a written reason (some backed by supporting rules), and that every loop has a progress argument. Panics inside dependencies, memory exhaustion and the linear-time bound are not decided.",
  "C09": "Static all-paths decision of necessary structural clauses of Add: writes only StartAt, EndAt and the item slice; both boundaries get the same update; the in-place deletion rewinds the index; CLI sync → Add(-s). The arithmetic (exact d, clamp, which cues die) is not decided.",
  "C10": "Static decision of necessary structural clauses of Fragment: frame; new pieces are whole copies; Order() after every insertion; CLI. Where the cuts fall is not decided (the known last-listed-cue fault stays invisible).",
  "C11": "Static decision of necessary structural clauses of Unfragment: frame; delete-rewind; Order() before the scan; same text function on both cues reading every run. Merge semantics and the inverse law are not decided.",
@@ -109,6 +109,25 @@ TEXT_ADD2 = {
  "C13": " No cue is skipped by RemoveStyling on a test of its cue-level styling.",
  "C17": " A byte-order-mark test in the split function waits for enough bytes before it decides.",
 }
+# rounds 7 and 8
+TECH_ADD3 = {
+ "C01": "per-(token kind, tag) partial evaluation of the tag handlers; every field of the running state is read on every path to the addition of a run",
+ "C05": "effects of propagate<F>Attributes restricted to fields of the other formats",
+ "C06": "every return of updateCharset after the charset code is recorded is dominated by a copy of the designated G0 table",
+ "C07": "exact-truncation, frame-rounding and split-function rules run for C07 as well; no early return of Unfragment on a data condition; propagate<F>Attributes keeps the source attributes",
+ "C08": "contracts of FindStringIndex / FindAll…Index (ordered non-overlapping rows, mandatory capture groups), proof by cases on merges, reverse-scan invariants (register and memory form), fill bound of a read-until-full loop",
+ "C10": "reused-buffer hazard and scan-cursor clauses of the Fragment sweep",
+ "C11": "no data-dependent early return before the merge scan",
+ "C13": "no store into a used-set reachable from a delete on the style table",
+ "C17": "a direct Read is accepted only inside a verified read-until-full loop",
+}
+TEXT_ADD3 = {
+ "C05": " Attribute propagation never rewrites the STL attributes the reader returned.",
+ "C06": " The designated G0 table is copied afresh whenever a new charset code is recorded.",
+ "C10": " The list installed by one window is not a buffer the next window refills faster than it reads; the per-window scan starts at the first cue or after a contiguous finished prefix.",
+ "C11": " Unfragment has no early return other than for fewer than two cues.",
+ "C13": " Styles are swept only after marking is complete.",
+}
 for k, v in TECH_ADD.items():
     TECH[k] += "; " + v
 for k, v in TEXT_ADD.items():
@@ -116,6 +135,10 @@ for k, v in TEXT_ADD.items():
 for k, v in TECH_ADD2.items():
     TECH[k] += "; " + v
 for k, v in TEXT_ADD2.items():
+    TEXT[k] += v
+for k, v in TECH_ADD3.items():
+    TECH[k] += "; " + v
+for k, v in TEXT_ADD3.items():
     TEXT[k] += v
 NOTE = "Assumes P0 (non-nil receivers/arguments), P1 (non-nil model elements, map keys = IDs), library contracts in internal/chk/contracts.go, and the fidelity of go/ssa + VTA (x/tools v0.29.0). Audited residue entries in rules/residue.txt are trusted."
 props = [json.loads(l) for l in open("/verif/properties.jsonl")]
